@@ -6,7 +6,11 @@ spelled with and without spaces around the additional symbols and stand next to 
 the real parser's leaves (in order) are compared with the token stream of coq/C10/Model.v (lex_all over the scope keys the
 implementation reports), the evaluated value with the arithmetic over the bound values; then the same name texts in every
 expression position (argument, if / for / some / every / filter sub-expression, context entry, path head) and names introduced by
-context entries, formal parameters and iteration variables."""
+context entries, formal parameters and iteration variables.
+White space beyond blank / tab / newline: U+1680, U+180E, U+FEFF (white space and name characters at once for the lexer), U+00A0, U+2003,
+U+3000, U+200B, U+2028, U+0085, U+202F, a byte order mark in front -- inside and around the parts of the bound names (Name::new trims
+White_Space, the model does too: the scope keys of the implementation = name_new of the model on the same part lists) and in the gaps of
+the texts; a bound name written under the reading rule of C10_longest_written must come out as that name."""
 import json
 import re
 
@@ -18,6 +22,21 @@ HEADER = 'From Coq Require Import List NArith Bool.\nFrom DV Require Import C10.
 WORDS = ['a', 'b', 'c', 'x1', 'Total', 'żółw', 'ν', 'd_2']
 SYMS = ['.', '/', '-', "'", '+', '*']
 VALUES = [1000003, 20011, 307, 41, 5000011, 60013, 709]
+# U+1680, U+180E, U+FEFF: white space AND name characters for the lexer (C10_char_classes); of the three str::trim removes U+1680 only
+AMBIG = ['\u1680', '\u180e', '\ufeff']
+# white space for the lexer only; all but U+200B have the Unicode property White_Space (what str::trim in Name::new removes)
+WS_X = ['\u00a0', '\u2003', '\u3000', '\u200b', '\u2028', '\u0085', '\u202f', '\u2000']
+RUST_WS = set(chr(c) for c in list(range(9, 14)) + [0x20, 0x85, 0xa0, 0x1680] + list(range(0x2000, 0x200b)) + [0x2028, 0x2029, 0x202f, 0x205f, 0x3000])
+
+
+def rust_trim(s):
+    """str::trim: the characters with the Unicode property White_Space (char::is_whitespace) at both ends."""
+    i, j = 0, len(s)
+    while i < j and s[i] in RUST_WS:
+        i += 1
+    while j > i and s[j - 1] in RUST_WS:
+        j -= 1
+    return s[i:j]
 
 
 def coq_str(s):
@@ -28,7 +47,7 @@ def name_new(parts):
     """Name::new (feel/src/names.rs)."""
     out, prev = '', False
     for i, p in enumerate(parts):
-        p = p.strip()
+        p = rust_trim(p)
         cur = p in SYMS
         if i > 0 and not prev and not cur and p != '':
             out += ' '
@@ -112,6 +131,130 @@ def gen_text(rng, scope):
         else:
             out += spell(rng, gen_name(rng))
     return out
+
+
+# ------------------------------------------------------------------------------------------------ white space beyond blank / tab / newline
+
+def x_word(rng):
+    """A word with one of the three overlapping code points inside, in front or behind, or a plain word."""
+    w = rng.choice(WORDS[:5])
+    k = rng.random()
+    c = rng.choice(AMBIG)
+    if k < 0.25:
+        return w + c + rng.choice(['b', 'c', '1'])
+    if k < 0.45:
+        return w + c
+    if k < 0.6:
+        return c + w
+    if k < 0.65:
+        return c
+    return w
+
+
+def x_pad(rng, p):
+    """The part as a caller of Name::new may hand it over: White_Space around it (trimmed), U+200B / U+180E / U+FEFF around it (kept)."""
+    k = rng.random()
+    if k < 0.55:
+        return p
+    pad = [' ', '\t', '\u00a0', '\u1680', '\u2003', '\u3000', '\u2028', '\u0085', '\n']
+    if k < 0.9:
+        return rng.choice(pad + ['']) * rng.choice([1, 2]) + p + rng.choice(pad + ['', '']) * rng.choice([1, 2])
+    return rng.choice(['\u200b', '\u180e', '\ufeff', ' \ufeff']) + p + rng.choice(['', '\u200b', '\ufeff '])
+
+
+def gen_name_x(rng):
+    """Parts of a bound name with the overlapping code points in its words, padded parts, now and then an empty or all-white part."""
+    n = rng.choice([1, 1, 2, 2, 3])
+    parts = [x_word(rng)]
+    for _ in range(n - 1):
+        if rng.random() < 0.45:
+            parts.append(rng.choice(SYMS))
+        if rng.random() < 0.12:
+            parts.append(rng.choice(['', ' ', '\u1680', '\u00a0\u1680', '\u180e', '\ufeff']))
+        parts.append(x_word(rng))
+    if rng.random() < 0.1:
+        parts.append(rng.choice(SYMS + ['\u1680', '']))
+    return [x_pad(rng, p) for p in parts]
+
+
+def gen_scope_x(rng):
+    names = [gen_name_x(rng)]
+    base = names[0]
+    for _ in range(rng.choice([1, 2, 3])):
+        k = rng.random()
+        if k < 0.35:
+            names.append(gen_name(rng))
+        elif k < 0.6:
+            other = gen_name_x(rng)
+            names.append(other)
+            if rng.random() < 0.6:
+                names.append(base + [rng.choice(['-', '+', '*', '/', '.'])] + other)
+        elif k < 0.8 and len(base) > 1:
+            names.append(base[:rng.randrange(1, len(base))])
+        else:
+            names.append([rust_trim(p) for p in base if rust_trim(p)])        # the same name handed over without the padding
+    uniq, seen = [], set()
+    for p in names:
+        t = name_new(p)
+        if t and t not in seen and not any(rust_trim(w) in ('in', 'item', 'and', 'or') for w in p):
+            seen.add(t)
+            uniq.append(p)
+    return uniq
+
+
+X_GAPS = ['\u00a0', '\u2003', '\u3000', '\u200b', ' \u1680', ' \u180e ', '\t\ufeff', '\u1680', '\u180e', '\ufeff', '\u1680 ', '\ufeff ', '\u2028', '\u0085 ',
+          ' ', '  ', '']
+
+
+def spell_x(rng, parts, strict=False):
+    """The name written with every kind of white space in the gaps.  strict: the gaps follow the reading rule of the lexer (a gap does not
+    begin with one of the three overlapping code points), so the text is a spelling of the name; otherwise any white space."""
+    out = ''
+    for i, p in enumerate(parts):
+        p = rust_trim(p) if strict else p.strip(' \t\n')
+        if i:
+            sym = p in SYMS or rust_trim(parts[i - 1]) in SYMS
+            g = rng.choice(X_GAPS)
+            if strict:
+                while (g and g[0] in AMBIG) or (g == '' and not sym):
+                    g = rng.choice(X_GAPS)
+            elif g == '' and not sym and rng.random() < 0.8:
+                g = ' '
+            out += g
+        out += p
+    return out
+
+
+def regular(parts):
+    """A name that can be written in a text: every trimmed part is one additional symbol or a word of name characters that does not begin
+    with one of the three overlapping code points (after white space such a code point is white space, at the start of a token too)."""
+    for i, p in enumerate(parts):
+        t = rust_trim(p)
+        if t in SYMS:
+            if i == 0:
+                return False
+            continue
+        if not t or t[0] in AMBIG or t[0].isdigit() or any(ch in SYMS or ch in RUST_WS or ch == '\u200b' for ch in t):
+            return False
+    return True
+
+
+def gen_text_x(rng, scope):
+    """Texts over a scope with every kind of white space: spellings of the bound names (strict and not), the overlapping code points
+    next to operators, a byte order mark in front, white space behind."""
+    n = rng.choice([1, 1, 2, 3])
+    out = rng.choice(['', '', '\ufeff', '\u1680', '\u00a0 '])
+    for i in range(n):
+        if i:
+            out += rng.choice([' ', '', '\u00a0', '\u1680', '\ufeff', ' \u180e']) + rng.choice(['+', '-', '*', '-']) + rng.choice([' ', '', '\u2003', '\u1680', '\ufeff', '\u180e '])
+        k = rng.random()
+        if k < 0.75:
+            out += spell_x(rng, rng.choice(scope), strict=rng.random() < 0.4)
+        elif k < 0.85:
+            out += str(rng.choice([1, 2, 17]))
+        else:
+            out += spell_x(rng, gen_name_x(rng))
+    return out + rng.choice(['', '', ' ', '\u3000', '\u1680', '\ufeff', '\u200b'])
 
 
 # ------------------------------------------------------------------------------------------------ model <-> implementation
@@ -258,10 +401,35 @@ def run(ctx):
     scopes += [[['a'], ['a', 'b'], ['a', 'b', 'c']], [['a', 'b'], ['b', 'c'], ['c']], [['Total'], ['Total', 'x1'], ['x1', '-', 'a'], ['a']]]
     for _ in range(ctx.pick(250, 6000)):
         scopes.append(gen_scope(rng))
+    # white space beyond blank / tab / newline, the three code points that are name characters too: in the bound names and in the texts
+    n_plain = len(scopes)
+    x_chars = AMBIG + WS_X
+    scopes.append([['a'], ['b'], ['a', '+', 'b'], ['a', 'b']])
+    scopes.append([['a'], ['b'], ['a', '+']])
+    for w in x_chars[:6]:
+        scopes.append([['a' + w], ['b'], ['a', w + 'b', 'c'], [w + 'a', '+', w, 'b'], ['c', ' ' + w + ' ', 'a']])
+    for _ in range(ctx.pick(70, 2500)):
+        sc = gen_scope_x(rng)
+        if sc:
+            scopes.append(sc)
     cases = []
-    for sc in scopes:
+    for six, sc in enumerate(scopes):
         bind = [[p, VALUES[i % len(VALUES)]] for i, p in enumerate(sc)]
         env = {name_new(p): VALUES[i % len(VALUES)] for i, p in enumerate(sc)}
+        if six >= n_plain:
+            texts = [(gen_text_x(rng, sc), None) for _ in range(ctx.pick(4, 8))]
+            for q in sc:
+                if regular(q):
+                    # the name written with any white space in its gaps (reading rule of the lexer respected) is that name
+                    texts.append((rng.choice(['', '\ufeff', ' ']) + spell_x(rng, q, strict=True) + rng.choice(['', ' ', '\u3000']), name_new(q)))
+            if six < n_plain + 2:
+                for w in x_chars:
+                    texts += [(t, None) for t in (
+                        'a+' + w + ' b', 'a+ ' + w + 'b', 'a+' + w + 'b', 'a' + w + '+b', 'a ' + w + '+ b', 'a' + w + ' +b', 'a' + w + 'b', 'a ' + w + 'b',
+                        'a' + w + ' b', 'a ' + w + ' b', w + 'a b', 'a b' + w, 'a b' + w + '+1', 'a' + w, 'a' + w + '-b', 'a+' + w + ' + b', 'a+' + w + '+ b')]
+            for t, direct in texts:
+                cases.append({'scope': sc, 'bind': bind, 'env': env, 'text': t, 'x': True, 'direct': direct, 'six': six})
+            continue
         texts = [gen_text(rng, sc) for _ in range(ctx.pick(5, 8))]
         if len(sc) == 3 and sc[0] == ['a'] and len(sc[2]) == 3:
             s = sc[2][1]
@@ -271,15 +439,58 @@ def run(ctx):
             # U+1680, U+180E, U+FEFF are white space AND name characters (C10_char_classes): after a name character they continue the word
             texts += ['a\u1680b', 'a\u180eb', 'a\ufeffb', 'a \u1680b', 'a+\ufeffb']
         for t in texts:
-            cases.append({'scope': sc, 'bind': bind, 'env': env, 'text': t})
-    impl = ctx.run_impl('ast', [{'bind': c['bind'], 'e': c['text'], 'mode': 'expr', 'eval': True} for c in cases])
+            cases.append({'scope': sc, 'bind': bind, 'env': env, 'text': t, 'six': six})
+    # the witnesses of C10_longest_written_gap_rule_refuted / _word_rule_refuted / C10_reading_nonvacuous against the real parser: the tokens
+    # stated in coq/Props/C10.v are the tokens of the model on this run and the leaves of the real parser
+    for sc, t, toks in (
+            ([['a'], ['b'], ['a', 'b']], 'a\u1680b', [('name', 'a\u1680b')]),
+            ([['a'], ['b'], ['a', '+', 'b']], 'a+\u1680 b', [('name', 'a'), ('sym', '+'), ('name', 'b')]),
+            ([['a'], ['b'], ['a', '+', 'b']], 'a+ \u1680b', [('name', 'a+b')]),
+            ([['a'], ['a', '\u180eb']], 'a \u180eb', [('name', 'a'), ('name', 'b')]),
+            ([['a'], ['b'], ['a', 'b']], 'a\u1680  b', [('name', 'a b')]),
+            ([['a'], ['b'], ['a', '+', '\ufeffb']], 'a+\ufeffb', [('name', 'a+\ufeffb')])):
+        scopes.append(sc)
+        cases.append({'scope': sc, 'bind': [[p, VALUES[i % len(VALUES)]] for i, p in enumerate(sc)], 'env': {name_new(p): VALUES[i % len(VALUES)] for i, p in enumerate(sc)},
+                      'text': t, 'x': True, 'direct': None, 'six': len(scopes) - 1, 'tokens': toks})
+    # names handed over as one text: From<&str> for Name trims the text and nothing else
+    str_names = [' a', 'a b\u1680', '\u00a0a  b\u3000', '\ufeffa', 'a\u180e', '\u200ba b', ' a + b ', '\t\u2003x1\n', 'a\u1680b', '\u1680', ' \u0085Total\u2028']
+    str_cases = [{'bind': [[t, 5], [['zz'], 1]], 'e': 'zz', 'mode': 'expr', 'eval': True} for t in str_names]
+    impl_all = ctx.run_impl('ast', [{'bind': c['bind'], 'e': c['text'], 'mode': 'expr', 'eval': True} for c in cases] + str_cases +
+                            [{'bind': c['bind'], 'e': ''.join(' ' if ch in AMBIG else ch for ch in c['text']), 'mode': 'expr', 'eval': True} for c in cases if c.get('x')])
+    impl = impl_all[:len(cases)]
+    impl_str = impl_all[len(cases):len(cases) + len(str_cases)]
+    for c, gb in zip([c for c in cases if c.get('x')], impl_all[len(cases) + len(str_cases):]):
+        c['blank'] = gb
     terms = []
     for c, g in zip(cases, impl):
         keys = g.get('keys', [])
         c['keys'] = keys
         terms.append('lex_all [%s] %s' % ('; '.join(coq_str(k) for k in keys), coq_str(c['text'])))
-    model = ctx.run_model(HEADER, terms, shard_size=120)
-    kinds = {'one-name': 0, 'operators': 0, 'rejected': 0, 'unbound': 0}
+    # Name::new of the model on the part lists of the bound names (every scope with white space in its parts, a sample of the others)
+    name_scopes = [six for six in range(len(scopes)) if six >= n_plain or six % 5 == 0]
+    name_terms = ['map name_new [%s]' % '; '.join('[%s]' % '; '.join(coq_str(q) for q in p) for p in scopes[six]) for six in name_scopes]
+    name_terms += ['map name_of_text [%s]' % '; '.join(coq_str(t) for t in str_names)]
+    model_all = ctx.run_model(HEADER, terms + name_terms, shard_size=max(120, (len(terms) + len(name_terms) + 15) // 16))
+    model = model_all[:len(terms)]
+    model_names = {six: sorted(''.join(chr(ch) for ch in n) for n in ns) for six, ns in zip(name_scopes, model_all[len(terms):-1])}
+    keys_of_scope = {}
+    for c in cases:
+        keys_of_scope.setdefault(c['six'], sorted(c['keys']))
+    kinds = {'one-name': 0, 'operators': 0, 'rejected': 0, 'unbound': 0, 'white-space-cases': 0, 'written-names': 0, 'other-reading-differs': 0,
+             'name-new-scopes': 0, 'trimmed-parts': 0, 'comment-or-exponent': 0}
+    for six in name_scopes:
+        ctx.evaluations += 1
+        ctx.corr_checked += 1
+        kinds['name-new-scopes'] += 1
+        kinds['trimmed-parts'] += sum(1 for p in scopes[six] for q in p if rust_trim(q) != q)
+        if six in keys_of_scope and model_names[six] != keys_of_scope[six]:
+            ctx.corr_broken('Name::new', {'bound': scopes[six]}, keys_of_scope[six], model_names[six])
+    for t, g, m in zip(str_names, impl_str, model_all[-1]):
+        ctx.evaluations += 1
+        ctx.corr_checked += 1
+        mk = ''.join(chr(ch) for ch in m)
+        if sorted(g.get('keys', [])) != sorted([mk, 'zz']) or mk != rust_trim(t):
+            ctx.corr_broken('Name::from(&str)', {'name': t}, g.get('keys'), mk)
     good_texts = []
     for c, g, m in zip(cases, impl, model):
         ctx.evaluations += 1
@@ -297,7 +508,20 @@ def run(ctx):
         # the property itself, on the implementation's own output: longest bound name at every name position
         if mt is None:
             continue
+        if any(a[0] == 'sym' and b[0] == 'sym' and a[1] + b[1] in ('/*', '//', '**') for a, b in zip(mt, mt[1:])):
+            # two operator characters left over behind a name: a comment or the exponent operator for the real lexer (layout and operators are C06)
+            kinds['comment-or-exponent'] += 1
+            continue
         ctx.nontrivial.add((tuple(want_keys), c['text']))
+        if c.get('tokens') is not None and mt != c['tokens']:
+            ctx.corr_broken('witness of coq/Props/C10.v', {'text': c['text'], 'bound': c['scope']}, lv, mt)
+        if c.get('direct') is not None:
+            # the Spec on a name written in the text (C10_longest_written): it is that name, whatever white space stands in its gaps
+            kinds['written-names'] += 1
+            if mt != [('name', c['direct'])]:
+                ctx.violation('the bound name `%s` written as `%s` is read as %s' % (c['direct'], c['text'], mt),
+                              {'text': c['text'], 'bound': c['scope'], 'written': c['direct']}, impl=g, model=mt)
+                continue
         if ast is None:
             kinds['rejected'] += 1
             if well_formed(mt):
@@ -308,6 +532,11 @@ def run(ctx):
             ctx.violation('`%s` with %s bound: the parser read %s, longest match gives %s' % (c['text'], want_keys, lv, mt),
                           {'text': c['text'], 'bound': c['scope']}, impl=g, model=mt)
             continue
+        if c.get('x'):
+            kinds['white-space-cases'] += 1
+            gb = c['blank']
+            if any(ch in c['text'] for ch in AMBIG) and (gb.get('v'), gb.get('err')) != (g.get('v'), g.get('err')):
+                kinds['other-reading-differs'] += 1      # with the three code points read as blanks the text means something else
         kinds['one-name' if len(mt) == 1 else 'operators'] += 1
         ev = value_of(mt, c['env'])
         if ev is not None:
@@ -325,7 +554,7 @@ def run(ctx):
     # every expression position
     pos_cases = []
     for c, ev, single in good_texts:
-        star = any('*' in parts for parts in c['scope'])
+        star = any(rust_trim(q) == '*' for parts in c['scope'] for q in parts)
         for e, want in positions(rng, c['text'], ev, single, star):
             pos_cases.append({'bind': c['bind'], 'e': e, 'want': want, 'what': 'position', 'bound': c['scope']})
     for e, want, what in binder_cases(rng):
@@ -352,10 +581,17 @@ def run(ctx):
     return ctx.finish(
         rule='scopes of 2..6 bound names (1..4 words, additional symbols, prefixes and operator-joined combinations of other bound names; every symbol with '
              'a / b / a<sym>b systematically); texts spell the names with 0..2 spaces or tabs around symbols and between words and join them with + - *; '
-             'then each resolved text in 18 expression positions and names introduced by context entries, parameters, iteration variables; non-trivial = distinct (scope, text)',
+             'scopes whose parts carry U+1680 / U+180E / U+FEFF inside, in front or behind, padded with White_Space (blank, tab, U+00A0, U+1680, U+2003, U+3000, U+2028, '
+             'U+0085) or with U+200B / U+180E / U+FEFF, with empty and all-white parts; texts with these characters in the gaps, next to the operators, in front (byte order mark) and behind, '
+             'every one of 11 such characters in 17 fixed places of a / b / a+b / a b; every writable bound name written under the reading rule (written-names); '
+             'Name::new and From<&str> of the model against the scope keys of the implementation (name-new-scopes); the witnesses of the _refuted theorems; '
+             'then each resolved text in 18 expression positions and names introduced by context entries, parameters, iteration variables; non-trivial = distinct (scope, text); '
+             'other-reading-differs = texts whose meaning changes when the three overlapping code points are replaced by blanks (interpretive class, see NOTES-C10.md)',
         extra_cov={'outcomes': kinds, 'positions': pk},
         assumptions=['names are bound through Name::new on part lists (normal form); words are not FEEL keywords or literals',
-                     'token order is read off the AST leaves in order (tree shape itself is C06)'],
+                     'token order is read off the AST leaves in order (tree shape itself is C06)',
+                     'U+1680, U+180E, U+FEFF are read the way the lexer reads them (name characters directly after a name character or an additional symbol, white space after white space: '
+                     'C10_collect_reading); the other reading (always white space) is not asserted: C10_longest_written_gap_rule_refuted, _word_rule_refuted'],
         trusted=['harness sub-command dv ast (scope built programmatically, flattened keys reported)'])
 
 
@@ -371,7 +607,9 @@ def replay(ctx, path):
     m = ctx.run_model(HEADER, ['lex_all [%s] %s' % ('; '.join(coq_str(k) for k in g.get('keys', [])), coq_str(c['text']))])[0]
     mt = model_tokens(m)
     print('model      :', mt)
-    if 'expected' in c:
+    if 'written' in c:
+        fail = mt != [('name', c['written'])] or g.get('ast') is None or leaves(g['ast']) != mt
+    elif 'expected' in c:
         got = canon_v(g.get('v')) if 'v' in g else g.get('err', g)
         fail = got != c['expected']
     else:
@@ -383,6 +621,6 @@ def replay(ctx, path):
 
 
 MANIFEST = dict(
-    technique='Coq proof (longest-prefix loop of the name lexer, layout invariant of the part collector and uniqueness of the reading, for all key sets and inputs; normaliser agreement) with lexer/model correspondence',
-    text='coq/Props/C10.v: for every set of scope keys and every input the modelled name lexer returns the longest bound prefix of the collected name parts and resumes right after it (else the whole candidate), for both values of the for/some/every flag with the `item` and `in` tweaks characterised exactly (C10_lex_name_cases); for every input the collected parts are non-empty, do not overlap, are separated by white space only, and consumed text ++ rest = input after any chosen prefix, so no character is lost or read twice (C10_parts_disjoint, C10_gaps_whitespace, C10_backtrack_no_loss, C10_lex_name_no_loss); every part is a maximal word or one additional symbol and any bound name written at the position with any spacing is a prefix of the collected parts, so no bound name written there is longer than the token (C10_collect_shape, C10_longest_written; hypothesis: the input has none of U+1680, U+180E, U+FEFF, which are white space and name characters at once, C10_char_classes); the two name normalisers are compared. The model (part-collecting state machine, position bookkeeping, back-tracking) is tied to lexer.rs by comparing token streams and evaluated values on generated scopes and spellings, then the resolved names are placed in every expression position and introduced by binders.',
-    note='Trusted: Coq kernel + vm_compute, hand-written model of consume_name / Name::new / flatten_name_parts (correspondence-checked), harness dv ast, arithmetic oracle over the bound integers.')
+    technique='Coq proof (longest-prefix loop of the name lexer, layout invariant of the part collector and uniqueness of the reading, for all key sets and inputs; normaliser agreement; the trim of Name::new) with lexer/model correspondence',
+    text='coq/Props/C10.v: for every set of scope keys and every input the modelled name lexer returns the longest bound prefix of the collected name parts and resumes right after it (else the whole candidate), for both values of the for/some/every flag with the `item` and `in` tweaks characterised exactly (C10_lex_name_cases); for every input the collected parts are non-empty, do not overlap, are separated by white space only, and consumed text ++ rest = input after any chosen prefix, so no character is lost or read twice (C10_parts_disjoint, C10_gaps_whitespace, C10_backtrack_no_loss, C10_lex_name_no_loss); every part is a maximal word or one additional symbol (C10_collect_shape). Longest match on the text, now for EVERY input: the collected parts and gaps are a `reading` of the input (C10_collect_reading: a gap does not begin with a name character, a word behind a gap does not begin with white space -- which only U+1680, U+180E, U+FEFF, white space and name characters at once, could do, C10_char_classes), a reading is unique, so any bound name written at the position under this rule with any white space in its gaps is a prefix of the collected parts and no bound name written there is longer than the token (C10_longest_written, no hypothesis on the characters of the input any more; C10_canon_reading: the former statement is a special case); outside the rule it fails when the code point is taken for white space (C10_longest_written_gap_rule_refuted: `a<U+1680>b` with `a b` bound, `a+<U+1680> b` with `a+b` bound; C10_longest_written_word_rule_refuted; witnesses run against the real parser on every run). name_new of the model is Name::new with its str::trim of every part (Unicode White_Space, not the white space of the lexer: C10_white_space_classes); C10_name_new_trim, C10_trim_collected: on the parts the collector returns the trim removes U+1680 at the two ends and nothing else, on an input without U+1680 nothing; coq/C06/Lexer.v uses this name_new. The two name normalisers are compared. The model (part-collecting state machine, position bookkeeping, back-tracking, Name::new, From<&str>) is tied to lexer.rs / names.rs by comparing token streams, scope keys and evaluated values on generated scopes and spellings with every kind of white space in the names and in the texts, then the resolved names are placed in every expression position and introduced by binders.',
+    note='Trusted: Coq kernel + vm_compute, hand-written model of consume_name / Name::new / flatten_name_parts (correspondence-checked), harness dv ast, arithmetic oracle over the bound integers. Interpretive: the three code points U+1680, U+180E, U+FEFF are name characters and white space in the grammar as in lexer.rs; the check follows the reading of the lexer.')
